@@ -31,6 +31,7 @@ type RunCfg struct {
 	SwitchBound int            `json:"switch_bound"`
 	Shards      int            `json:"shards"`
 	ShardDepth  int            `json:"shard_depth"`
+	MapRotate   bool           `json:"map_rotate"`
 	SymRand     bool           `json:"sym_rand"`
 	OpaqueMake  bool           `json:"opaque_make"`
 	Reach       []string       `json:"reach"`       // markers that must be reached
@@ -609,7 +610,18 @@ func (g *G) visit(fr *Frame, ins ssa.Instruction) int {
 			if x == nil {
 				x = newMap()
 			}
-			fr.set(ins, &mapIter{m: x})
+			it := &mapIter{m: x, n0: len(x.keys)}
+			if vm.cfg.MapRotate && x.n > 1 && fr.info.isMangos {
+				// the starting point of a map iteration is unspecified in Go: a decision
+				var liveIdx []int
+				for i, l := range x.live {
+					if l {
+						liveIdx = append(liveIdx, i)
+					}
+				}
+				it.start = liveIdx[vm.choose(len(liveIdx), "map-range-start", 'M')]
+			}
+			fr.set(ins, it)
 		case string:
 			fr.set(ins, &strIter{s: x})
 		default:
